@@ -390,7 +390,9 @@ class ObjectiveStructureH(Harness):
     rs_model = True
 
     def cases(self):
-        return [{"cols": 2, "named": [0]}, {"cols": 2, "named": [0, 1]}, {"cols": 3, "named": [1]}, {"cols": 3, "named": [0, 2]}]
+        # incl. a polyhedron of ONE column, and requests that name every column (no column left at weight "no priority")
+        return [{"cols": 1, "named": [0]}, {"cols": 1, "named": []}, {"cols": 2, "named": [0]}, {"cols": 2, "named": [0, 1]},
+                {"cols": 3, "named": [1]}, {"cols": 3, "named": [0, 2]}, {"cols": 3, "named": [0, 1, 2]}]
 
     def setup(self, c, case):
         from .c12 import sym_polyhedron
